@@ -28,6 +28,7 @@ func apiMemo(fr *frame, a []value) value {
 	i.pathFuncs = map[string]int{}
 	i.steps = 0
 	i.maxSteps = 20 * savedMax // amortised over every path that shares the result
+	i.extraDepth = 20000
 	restore := func() {
 		i.journalOn = savedJournal
 		for k, n := range i.pathFuncs {
@@ -36,6 +37,7 @@ func apiMemo(fr *frame, a []value) value {
 		i.pathFuncs = savedFuncs
 		i.steps = savedSteps
 		i.maxSteps = savedMax
+		i.extraDepth = 0
 	}
 	var v value
 	func() {
